@@ -6,7 +6,6 @@ import vlib
 # which known-finding class a failing case of each name-check kind belongs to; the three checks are
 # separate (tiny) cases, so a failure of one is never attributed to another
 KIND_CLASS = {
-    "keyword-names": "ts-keyword-type-name",
     "scalar-identifier-capture": "tmp-prefix-capture",
     "resolver-file-names": "resolver-file-name-capture",
 }
@@ -18,7 +17,8 @@ def item_failure(item):
     k = item.get("kind")
     declared = set(item.get("declared", []))
     if k == "keyword-names":
-        return KIND_CLASS[k] if declared & KEYWORDS else None
+        # repaired in /repo d4bb3a6: a declared keyword name is a new violation
+        return "UNKNOWN" if declared & KEYWORDS else None
     if k == "scalar-identifier-capture":
         idents = set(i for t in item.get("scalar_texts", []) for i in re.findall(r"[A-Za-z_][A-Za-z0-9_]*", t))
         captured = declared & idents
@@ -47,7 +47,7 @@ def classify(case, kind):
 def run(ctx):
     return vlib.standard_check(
         ctx,
-        targets=["C10/Properties.vo", "C10/Examples.vo", "C10/Corr.vo"],
+        targets=["C10/Properties.vo", "C10/Examples.vo", "C10/SitesForC06.vo", "C10/Corr.vo"],
         pinned="C10/Pinned.v",
         binname="c10",
         classify=classify,
